@@ -116,7 +116,8 @@ class TrackedDfg(Dfg):
             True
         """
         try:
-            tracked = self.tracked[index]
+            # negative indices must not wrap around to the end of the list
+            tracked = self.tracked[index] if index >= 0 else None
         except IndexError:
             tracked = None
         if tracked is None:
